@@ -3,6 +3,9 @@
 import json, os, subprocess
 V = os.path.dirname(os.path.dirname(os.path.abspath(__file__)))
 TEXT = {
+ 'C16': ('model-identity monitor: real UNIFAC / Dortmund / NIST / ideal model objects called on random compositions; vertex normalisation, Gibbs-Duhem residual by central differences, permutation equivariance, inert members, bit-identity of the caller array, functional form',
+         'Exploration: seeded sets of 2-6 chemicals (+ members without groups), vertices / near-vertices / traces / interior points, T 250-450 K, all permutations for n<=4.',
+         'Gibbs-Duhem bound 1e-4 of the largest term + 1e-7; NIST groups assigned by name on private uncached chemicals.'),
  'C20': ('conservation/target monitor: molar flows of every inlet and outlet recorded around each real separations helper call; per-chemical balance, non-negativity and the helper target (K ratios, moisture fraction, phase routing, split identity, balance residual) evaluated',
          'Exploration: seeded cases for mix_and_split, moisture adjustment, partition / phase_fraction (forced and unlisted chemicals, strict on/off, stale outlets), phase_split, chemical_splits, material_balance and the vle / lle wrappers.',
          'Equilibrium quality of the wrappers is C04/C15; feeds with no material among the listed chemicals are not judged.'),
